@@ -1,0 +1,107 @@
+//go:build verif
+
+package server
+
+// Hooks for the model-based verification harness under /verif (build tag
+// `verif`). They let the harness drive HandleMsg4/HandleMsg6 without sockets
+// and observe what would have been sent, and where.
+
+import (
+	"net"
+
+	"golang.org/x/net/ipv4"
+	"golang.org/x/net/ipv6"
+
+	"github.com/coredhcp/coredhcp/handler"
+	"github.com/insomniacslk/dhcp/dhcpv4"
+	"github.com/insomniacslk/dhcp/dhcpv6"
+)
+
+// VerifSent4 describes a DHCPv4 reply about to be sent.
+type VerifSent4 struct {
+	Req, Resp *dhcpv4.DHCPv4
+	Peer      *net.UDPAddr
+	Woob      *ipv4.ControlMessage
+	L2        bool
+	Bound     net.Interface
+}
+
+// VerifSent6 describes a DHCPv6 reply about to be sent.
+type VerifSent6 struct {
+	Req, Resp dhcpv6.DHCPv6
+	Peer      *net.UDPAddr
+	Woob      *ipv6.ControlMessage
+	Bound     net.Interface
+}
+
+var (
+	// VerifSend4Hook, when it returns true, replaces the actual send.
+	VerifSend4Hook func(VerifSent4) bool
+	// VerifSend6Hook, when it returns true, replaces the actual send.
+	VerifSend6Hook func(VerifSent6) bool
+	// VerifFrameHook, when it returns true, replaces the AF_PACKET send.
+	VerifFrameHook func(iface net.Interface, frame []byte) bool
+	// VerifBufPutHook is called right after a receive buffer went back to the pool.
+	VerifBufPutHook func(buf []byte)
+)
+
+func verifSend4(l *listener4, req, resp *dhcpv4.DHCPv4, peer *net.UDPAddr, woob *ipv4.ControlMessage, l2 bool) bool {
+	if VerifSend4Hook == nil {
+		return false
+	}
+	return VerifSend4Hook(VerifSent4{Req: req, Resp: resp, Peer: peer, Woob: woob, L2: l2, Bound: l.Interface})
+}
+
+func verifSend6(l *listener6, req, resp dhcpv6.DHCPv6, peer *net.UDPAddr, woob *ipv6.ControlMessage) bool {
+	if VerifSend6Hook == nil {
+		return false
+	}
+	return VerifSend6Hook(VerifSent6{Req: req, Resp: resp, Peer: peer, Woob: woob, Bound: l.Interface})
+}
+
+func verifFrame(iface net.Interface, frame []byte) bool {
+	if VerifFrameHook == nil {
+		return false
+	}
+	return VerifFrameHook(iface, frame)
+}
+
+func verifBufPut(buf []byte) {
+	if VerifBufPutHook != nil {
+		VerifBufPutHook(buf)
+	}
+}
+
+// VerifListener4 is a socket-less DHCPv4 listener.
+type VerifListener4 struct{ l listener4 }
+
+// VerifListener6 is a socket-less DHCPv6 listener.
+type VerifListener6 struct{ l listener6 }
+
+// NewVerifListener4 builds a listener around a handler chain. ifi is the
+// interface the listener is bound to (zero value: unbound).
+func NewVerifListener4(handlers []handler.Handler4, ifi net.Interface) *VerifListener4 {
+	return &VerifListener4{l: listener4{Interface: ifi, handlers: handlers}}
+}
+
+// NewVerifListener6 builds a listener around a handler chain.
+func NewVerifListener6(handlers []handler.Handler6, ifi net.Interface) *VerifListener6 {
+	return &VerifListener6{l: listener6{Interface: ifi, handlers: handlers}}
+}
+
+// Feed hands one datagram to HandleMsg4 the way Serve does: in a buffer taken
+// from the receive pool. It runs in the caller's goroutine.
+func (v *VerifListener4) Feed(datagram []byte, oob *ipv4.ControlMessage, peer *net.UDPAddr) {
+	b := *bufpool.Get().(*[]byte)
+	b = b[:MaxDatagram]
+	n := copy(b, datagram)
+	v.l.HandleMsg4(b[:n], oob, peer)
+}
+
+// Feed hands one datagram to HandleMsg6 the way Serve does.
+func (v *VerifListener6) Feed(datagram []byte, oob *ipv6.ControlMessage, peer *net.UDPAddr) {
+	b := *bufpool.Get().(*[]byte)
+	b = b[:MaxDatagram]
+	n := copy(b, datagram)
+	v.l.HandleMsg6(b[:n], oob, peer)
+}
